@@ -21,6 +21,8 @@ import time
 VERIF = os.path.dirname(os.path.dirname(os.path.abspath(__file__)))
 REPO = os.environ.get("VERIF_REPO", "/repo")
 SPEC = os.path.join(VERIF, "spec")
+# runs against seeded changes (tools/regress.py) must not overwrite the evidence of the unchanged tree
+EVIDENCE_DIR = os.environ.get("VERIF_EVIDENCE", os.path.join(VERIF, "evidence"))
 HARNESS = os.path.join(VERIF, "harness")
 MODULE = "github.com/BlackVectorOps/semantic_firewall/v3"
 TLA_JAR = "/opt/veriftools/tla/tla2tools.jar:/opt/veriftools/tla/CommunityModules-deps.jar"
@@ -312,8 +314,8 @@ class Ctx:
             ev["coverage"]["known_findings_hit"] = self.known_hits
         if not self.cov.get("samples"):
             self.cov["samples"] = ["(no sample recorded)"]
-        os.makedirs(os.path.join(VERIF, "evidence"), exist_ok=True)
-        with open(os.path.join(VERIF, "evidence", self.pid + ".json"), "w") as fh:
+        os.makedirs(EVIDENCE_DIR, exist_ok=True)
+        with open(os.path.join(EVIDENCE_DIR, self.pid + ".json"), "w") as fh:
             json.dump(ev, fh, indent=1, default=str)
         for h in self.known_hits:
             print("KNOWN-FINDING: property=%s %s [%s]" % (self.pid, h["what"], h["id"]))
@@ -335,8 +337,8 @@ class Ctx:
         ev = {"property_id": self.pid, "tier": self.tier, "seed": self.seed, "level": "other",
               "coverage": {"explanation": "INCONCLUSIVE: " + msg[:2000]}, "wall_s": round(wall, 2),
               "violations": 0}
-        os.makedirs(os.path.join(VERIF, "evidence"), exist_ok=True)
-        with open(os.path.join(VERIF, "evidence", self.pid + ".json"), "w") as fh:
+        os.makedirs(EVIDENCE_DIR, exist_ok=True)
+        with open(os.path.join(EVIDENCE_DIR, self.pid + ".json"), "w") as fh:
             json.dump(ev, fh, indent=1)
         shutil.rmtree(self.scratch, ignore_errors=True)
         return 2
